@@ -681,7 +681,7 @@ Lemma read_definition_length e ts e' rest : read_definition e ts = Some (e', res
 Proof.
   unfold read_definition. destruct ts as [|nm r]; [discriminate|]. destruct (m_kind nm); try discriminate.
   destruct r as [|lp r1]; [intros H; injection H as <- <-; cbn; lia|].
-  destruct (negb (m_sp lp) && is lp LP).
+  destruct (negb (m_sp lp) && negb (m_bol lp) && is lp LP).
   - destruct (read_params (S (length r1)) true r1) as [[[ps va] rest0]|] eqn:E; [|discriminate].
     apply read_params_length in E. pose proof (take_line_length rest0) as L. destruct (take_line rest0) as [body rest'].
     intros H; injection H as <- <-. cbn [snd length] in *. lia.
